@@ -54,7 +54,15 @@ class MachinePolicy(Policy):
             ci = self.repo.cls('Registers')
             init = ci.find_method('__init__')
             types = {}
-            for node in ast.walk(init.node):
+            # __init__ and the private helpers it calls on self (state built in a helper is still constructor state)
+            nodes = list(ast.walk(init.node))
+            for c in list(nodes):
+                if isinstance(c, ast.Call) and isinstance(c.func, ast.Attribute) and isinstance(c.func.value, ast.Name) \
+                        and c.func.value.id == 'self':
+                    h = ci.find_method(c.func.attr)
+                    if h is not None and h is not init:
+                        nodes += list(ast.walk(h.node))
+            for node in nodes:
                 if isinstance(node, ast.Assign) and len(node.targets) == 1:
                     t = node.targets[0]
                     if isinstance(t, ast.Attribute) and isinstance(t.value, ast.Name) and t.value.id == 'self':
